@@ -831,7 +831,12 @@ def one_case(ctx: Ctx, oracle: L.Oracle, batch: Optional[Batch], v11: bool, labe
         elif valid:
             bad = value_denotes(impl['value'], sval, text)
             if bad:
-                if L.has_py_ws(text):
+                fid = known_match(case, {'kind': 'spec-invalid-impl-valid'}) if _contains_union(d) else None
+                if fid == 'C02-F11':
+                    # a union member accepted the text through the time-zone equality defect
+                    ctx.known_hit(fid)
+                    case['_known'] = fid
+                elif L.has_py_ws(text):
                     case['_pyws_pending'] = {'kind': 'value', 'what': bad}
                 else:
                     ctx.failure('decoded value does not denote the XSD value of the text', _pub(case), bad)
@@ -1048,9 +1053,9 @@ def run(ctx: Ctx, driver_ok: bool) -> None:
 
 def _run(ctx: Ctx, drv: Optional[Driver], oracle: L.Oracle, widen: bool = False) -> None:
     from xmlschema.validators.builtins import BUILTIN_TYPES
-    n_types = ctx.pick(60, 400) * (2 if widen else 1)
-    n_mut_builtin = ctx.pick(120, 1500)
-    n_mut_derived = ctx.pick(12, 60)
+    n_types = ctx.pick(140, 500) * (2 if widen else 1)
+    n_mut_builtin = ctx.pick(300, 2500)
+    n_mut_derived = ctx.pick(20, 80)
     for v11 in (False, True):
         descs = gen_types(ctx.rng, v11, n_types)
         schema, good = build(v11, descs)
